@@ -603,6 +603,7 @@ def run(res):
   n_wf_bad = 0
   n_anext_bad = 0
   t_impl = t_model = 0.0
+  n_wfx_bad = [0]
   budget_objects = None if thorough else 3200
 
   def flush(batch):
@@ -616,10 +617,13 @@ def run(res):
       lines.append("O 1 %d %s" % (it["n_ops"], it["ops_line"]))
       lines.append("M 12 %d %s" % (len(it["items_line"].split()) // 4, it["items_line"]))
       lines.append(it["xleg"][0] if it["xleg"] else "X 0 0")
+      lines.append(it["cleg"][0] if it["cleg"] else "C 12 0 0")
     out = model.run(lines)
     t_model += time.time() - t0
     for k, it in enumerate(batch):
-      mo, mm, mx = out[3 * k], out[3 * k + 1], out[3 * k + 2]
+      mo, mm, mx, mc = out[4 * k], out[4 * k + 1], out[4 * k + 2], out[4 * k + 3]
+      wfx, mx = mx[1] == "1", mx.split(" ", 1)[1] if " " in mx else ""
+      wfc, mc = mc[1] == "1", mc.split(" ", 1)[1] if " " in mc else ""
       wf, an, pl, err, md = parse_model(mo)
       stats["plain" if pl else "send/async-surgery"] += 1
       if not pl:
@@ -640,8 +644,26 @@ def run(res):
       diffs = compare_object(it["real"], mo, it["ops_line"])
       if mm != it["real_ops_line"]:
         diffs.append("opcode list: model %s / real %s" % (mm[:300], it["real_ops_line"][:300]))
+      if it["cleg"] is None:
+        diffs.append("CPython instruction without a pytype opcode class")
+      else:
+        if not wfc:
+          n_wfx_bad[0] += 1
+          if n_wfx_bad[0] <= 3:
+            res.obligation("monitor:wf_exc:" + it["where"], False,
+                           "wf_excb is false on CPython's instructions + exception table")
+        if mc != it["cleg"][1]:
+          a, b = mc.split(";"), it["cleg"][1].split(";")
+          k0 = next((i for i, (x, y) in enumerate(zip(a, b)) if x != y), min(len(a), len(b)))
+          diffs.append("raw instructions + exception table -> opcode list: differs at op %d: model %s / real %s" % (
+              k0, ";".join(a[max(k0 - 1, 0):k0 + 3])[:200], ";".join(b[max(k0 - 1, 0):k0 + 3])[:200]))
       if it["xleg"]:
         stats["objects_with_exception_table"] += 1
+        if not wfx:
+          n_wfx_bad[0] += 1
+          if n_wfx_bad[0] <= 3:
+            res.obligation("monitor:wf_exc(pycnite):" + it["where"], False,
+                           "wf_excb is false on pycnite's offset table + exception table")
         if mx != it["xleg"][1]:
           k0 = next((i for i, (a, b) in enumerate(zip(mx.split(";"), it["xleg"][1].split(";"))) if a != b), -1)
           diffs.append("_add_setup_except: model and real offset tables differ at item %d: model %s / real %s" % (
@@ -714,7 +736,8 @@ def run(res):
         if fp not in viol_seen:
           viol_seen[fp] = (label, path, src, (ob.qualname, ob.firstlineno), v)
       batch.append({"where": where, "n_ops": ob.n_ops, "ops_line": ob.ops_line, "items_line": ob.items_line,
-                    "real": real, "real_ops_line": ob.real_ops_line, "dup": has_dup, "xleg": ob.xleg})
+                    "real": real, "real_ops_line": ob.real_ops_line, "dup": has_dup, "xleg": ob.xleg,
+                    "cleg": c16_impl.composite_case(ob)})
     if len(batch) >= 4000:
       flush(batch)
   flush(batch)
@@ -746,6 +769,11 @@ def run(res):
   if model is not None:
     out_x = model.run([x[0] for x in excs])
     for (inp, real_line, exc), mo in zip(excs, out_x):
+      wfx, mo = mo[1] == "1", mo.split(" ", 1)[1] if " " in mo else ""
+      syn_stats["exc-table-wf" if wfx else "exc-table-not-wf(still compared)"] += 1
+      if wfx and exc is not None:
+        # exception_ops_total: a well-formed table cannot take a KeyError path
+        res.obligation("monitor:exception_ops_total", False, "wf_excb holds but the real _add_setup_except raised " + exc)
       ok = (mo.startswith("E") and exc is not None) or (exc is None and mo == real_line)
       res.count(("exc", inp) if exc is None else None)
       if not ok:
@@ -783,6 +811,8 @@ def run(res):
                    "%d of %d synthetic cases disagree" % (n_syn_mism, len(syn) + len(tabs) + len(excs)))
     res.obligation("monitor:wf_ops-on-every-real-opcode-list", n_wf_bad == 0, "%d lists are not wf_ops" % n_wf_bad)
     res.obligation("monitor:anext_ok-on-SEND-free-lists", n_anext_bad == 0, "%d lists" % n_anext_bad)
+    res.obligation("monitor:wf_exc-on-every-real-offset-table-and-exception-table", n_wfx_bad[0] == 0,
+                   "%d code objects" % n_wfx_bad[0])
   res.obligation("coverage:enough-code-objects", n_objects >= (50000 if thorough else 1500),
                  "%d code objects" % n_objects)
 
